@@ -286,7 +286,9 @@ class TypeDef:
                     parts.append("%s pub %s" % (a, ty))
             return ", ".join(parts)
 
-        if self.kind == "struct":
+        if self.kind == "union":
+            out.append("pub union %s { %s }" % (self.name, fields_src(self.variants[0])))
+        elif self.kind == "struct":
             v = self.variants[0]
             if v.shape == "unit":
                 out.append("pub struct %s;" % self.name)
@@ -421,7 +423,7 @@ PLAIN_ATTRS = ["/// a documented field", "#[allow(dead_code)]", "#[cfg_attr(all(
 
 def noise_field_meta(rng, trait, f, shape):
     """A harmless attribute of another educed trait on the same field (independence, C15)."""
-    has = trait in LEAVES[f.ty]["traits"]
+    has = trait in LEAVES.get(f.ty, {"traits": ()})["traits"]
     if trait == "Debug":
         opts = ["Debug(ignore)", "Debug = false", None, None]
         if shape == "named":
